@@ -4156,13 +4156,23 @@ func checkGatewayWildcardsAndUpdate(tx WriteTxn, idx uint64, svc *structs.Servic
 // gateway-services table.
 func checkGatewayAndUpdate(tx WriteTxn, idx uint64, svc *structs.ServiceName, kind structs.GatewayServiceKind) error {
 	sn := structs.ServiceName{Name: svc.Name, EnterpriseMeta: svc.EnterpriseMeta}
-	svcGateways, err := tx.First(tableGatewayServices, indexService, sn)
+	svcGateways, err := tx.Get(tableGatewayServices, indexService, sn)
 	if err != nil {
 		return fmt.Errorf("failed gateway lookup for %q: %s", svc.Name, err)
 	}
 
-	if service, ok := svcGateways.(*structs.GatewayService); ok && service != nil {
-		// Copy the wildcard mapping and modify it
+	// The service can be linked to several gateways (and to several listeners
+	// of one gateway): every mapping has to learn the new kind. Collect first so
+	// the updates do not disturb the iterator.
+	var mappings []*structs.GatewayService
+	for mapping := svcGateways.Next(); mapping != nil; mapping = svcGateways.Next() {
+		if service, ok := mapping.(*structs.GatewayService); ok && service != nil {
+			mappings = append(mappings, service)
+		}
+	}
+
+	for _, service := range mappings {
+		// Copy the mapping and modify it
 		gatewaySvc := service.Clone()
 
 		gatewaySvc.Service = structs.NewServiceName(svc.Name, &svc.EnterpriseMeta)
